@@ -1,4 +1,4 @@
-package c10
+package snapshot_test
 
 // C10, unit "wire": the same transfer as harness/pkg/snapshot/zz_verif_c10_test.go
 // but over the real path: store.NodeTransport on top of raft.NetworkTransport
@@ -22,31 +22,30 @@ import (
 
 	"github.com/hashicorp/raft"
 	"github.com/rqlite/rqlite/v10/internal/verif/vsnap"
-	"github.com/rqlite/rqlite/v10/internal/verif/vsql"
 	"github.com/rqlite/rqlite/v10/internal/verif/vstat"
 	"github.com/rqlite/rqlite/v10/snapshot"
 	"github.com/rqlite/rqlite/v10/store"
 	"pgregory.net/rapid"
 )
 
-// layer is a store.Layer on a loopback listener.
-type layer struct{ net.Listener }
+// c10wLayer is a store.Layer on a loopback listener.
+type c10wLayer struct{ net.Listener }
 
-func (l *layer) Dial(addr string, timeout time.Duration) (net.Conn, error) {
+func (l *c10wLayer) Dial(addr string, timeout time.Duration) (net.Conn, error) {
 	return net.DialTimeout("tcp", addr, timeout)
 }
 
-func newTransport(compress bool) (*store.NodeTransport, error) {
+func c10wNewTransport(compress bool) (*store.NodeTransport, error) {
 	ln, err := net.Listen("tcp", "127.0.0.1:0")
 	if err != nil {
 		return nil, err
 	}
-	nt := raft.NewNetworkTransport(store.NewTransport(&layer{ln}), 3, 60*time.Second, io.Discard)
+	nt := raft.NewNetworkTransport(store.NewTransport(&c10wLayer{ln}), 3, 60*time.Second, io.Discard)
 	return store.NewNodeTransport(nt, compress), nil
 }
 
-// receive handles one InstallSnapshot RPC the way raft.installSnapshot does.
-func receive(rpc raft.RPC, dest *snapshot.Store) (id string, err error) {
+// c10wReceive handles one InstallSnapshot RPC the way raft.installSnapshot does.
+func c10wReceive(rpc raft.RPC, dest *snapshot.Store) (id string, err error) {
 	req, ok := rpc.Command.(*raft.InstallSnapshotRequest)
 	if !ok {
 		rpc.Respond(nil, fmt.Errorf("unexpected rpc %T", rpc.Command))
@@ -77,30 +76,6 @@ func receive(rpc raft.RPC, dest *snapshot.Store) (id string, err error) {
 	return sink.ID(), nil
 }
 
-func incompressibleDB(path string, k int, seed uint64) error {
-	db, err := vsql.Open(path)
-	if err != nil {
-		return err
-	}
-	defer db.Close()
-	if _, err := db.Exec(`PRAGMA page_size=512`); err != nil {
-		return err
-	}
-	if _, err := db.Exec(`CREATE TABLE t(b)`); err != nil {
-		return err
-	}
-	blob := make([]byte, 477+508*k)
-	x := seed | 1
-	for i := range blob {
-		x ^= x << 13
-		x ^= x >> 7
-		x ^= x << 17
-		blob[i] = byte(x >> 29)
-	}
-	_, err = db.Exec(`INSERT INTO t(b) VALUES(?)`, blob)
-	return err
-}
-
 func TestVerif_C10_Wire(t *testing.T) {
 	vsnap.Quiet()
 	rec := vstat.New(t, "C10", "wire",
@@ -118,7 +93,7 @@ func TestVerif_C10_Wire(t *testing.T) {
 		if incompressible {
 			k := rapid.IntRange(200, 2000).Draw(rt, "k")
 			file := filepath.Join(root, "boot.db")
-			if err := incompressibleDB(file, k, rapid.Uint64().Draw(rt, "seed")); err != nil {
+			if err := c10IncompressibleDB(file, k, rapid.Uint64().Draw(rt, "seed")); err != nil {
 				rt.Fatalf("harness: %v", err)
 			}
 			b, err = vsnap.NewWithDB(filepath.Join(root, "src"), file)
@@ -149,12 +124,12 @@ func TestVerif_C10_Wire(t *testing.T) {
 		defer dest.Close()
 		dest.SetReapThreshold(1 << 30)
 
-		tx, err := newTransport(compress)
+		tx, err := c10wNewTransport(compress)
 		if err != nil {
 			rt.Skip()
 		}
 		defer tx.Close()
-		rx, err := newTransport(compress)
+		rx, err := c10wNewTransport(compress)
 		if err != nil {
 			rt.Skip()
 		}
@@ -181,7 +156,7 @@ func TestVerif_C10_Wire(t *testing.T) {
 		go func() {
 			select {
 			case rpc := <-rx.Consumer():
-				id, err := receive(rpc, dest)
+				id, err := c10wReceive(rpc, dest)
 				done <- result{id, err}
 			case <-time.After(80 * time.Second):
 				done <- result{"", fmt.Errorf("no rpc received")}
